@@ -635,6 +635,103 @@ def periodicArray (fl : K → Int) (rnd : K → Int) (pad : K) (u : V3 K → V3 
 
 end
 
+/-! ### API level: the argument handling at the head of `monopole` / `periodicarray`
+
+  What the two generators do with their keyword arguments before a system is built, in the order of the source:
+  size multipliers (TypeError), `amin / bmin / cmin`, the (lo, hi) pairs, the shift (ValueError / IndexError of
+  `set_shift`, which has then NOT stored anything), the centre, the boundary width, and — `monopole` only — the
+  refusal of an unknown `boundaryshape` (ValueError; by then `set_shift` HAS stored the requested shift). -/
+
+/-- one entry of a `sizemults` sequence as the `isinstance(·, int)` asserts see it (`True` / `False` are ints). -/
+inductive MultEntry | int (v : Int) | other
+deriving Repr, DecidableEq
+
+def MultEntry.isInt : Option MultEntry → Bool | some (.int _) => true | _ => false
+def MultEntry.val : Option MultEntry → Int | some (.int v) => v | _ => 0
+
+/-- the `try: assert …` block on a sequence of any length and content (`none` = TypeError). -/
+def checkMultsRaw (line : Nat) : List MultEntry → Option IV
+  | [.int a, .int b, .int c] => checkMults line ⟨a, b, c⟩
+  | _ => none
+
+/-- `if amin > 0.0: amult = int(np.ceil(amin / self.rcell.box.a))`: the optional integer `minMult` takes. -/
+def minQ {K : Type} [Div K] [Zero K] [LT K] [DecidableLT K] (ceil : K → Int) (vmin len : K) : Option Int :=
+  if 0 < vmin then some (ceil (vmin / len)) else none
+
+/-- `boundaryshape not in ['cylinder', 'box']` → ValueError. -/
+def Shape.ofString? : String → Option Shape
+  | "cylinder" => some .cylinder | "box" => some .box | _ => none
+
+/-- the keyword arguments of a generator call that are handled before a system is built. -/
+structure CallArgs (K : Type) where
+  mults : Option (List MultEntry)
+  mins : V3 K
+  sh : ShiftArgs K
+  center : Option (V3 K)
+  centerscale : Bool
+  shape : String
+  width : K
+  widthscale : Bool
+
+/-- what the rest of the generator works with. -/
+structure Head (K : Type) where
+  sizes : Sizes
+  shift : V3 K
+  center : V3 K
+  width : K
+  shape : Shape
+
+section
+variable {K : Type} [Add K] [Mul K] [Div K] [Zero K] [LT K] [DecidableLT K]
+
+/-- multipliers of a call: `sizemults` checked or defaulted, raised by the three minimum lengths (`lens` =
+    `rcell.box.a, b, c`), then the `(lo, hi)` pairs.  `none` = TypeError. -/
+def callSizes (ceil : K → Int) (line : Nat) (lens : V3 K) (mults : Option (List MultEntry)) (mins : V3 K) : Option Sizes :=
+  let s? := match mults with
+    | none => some (defaultMults line)
+    | some l => checkMultsRaw line l
+  s?.map fun s =>
+    ⟨sizeOf line 0 (minMult line 0 (minQ ceil mins.x lens.x) s.x), sizeOf line 1 (minMult line 1 (minQ ceil mins.y lens.y) s.y),
+     sizeOf line 2 (minMult line 2 (minQ ceil mins.z lens.z) s.z)⟩
+
+/-- the head of `monopole` (`mono = true`) / `periodicarray` on an object whose stored shift is `cur`: the stored
+    shift afterwards and either the refusal class (`type`, `value`, `index`) or the resolved parameters. -/
+def callHead (ceil : K → Int) (mono : Bool) (line : Nat) (vects : M3 K) (lens : V3 K) (ucellA : K)
+    (shifts : List (V3 K)) (cur : V3 K) (a : CallArgs K) : V3 K × Except String (Head K) :=
+  match callSizes ceil line lens a.mults a.mins with
+  | none => (cur, .error "type")
+  | some sz =>
+    match (ShiftCall.gen a.sh).step vects shifts cur with
+    | (cur', .error e) => (cur', .error e)
+    | (cur', .ok sh) =>
+      let c := resolveCenter vects a.center a.centerscale
+      let w := resolveWidth ucellA a.width a.widthscale
+      if mono then
+        match Shape.ofString? a.shape with
+        | none => (cur', .error "value")
+        | some shp => (cur', .ok ⟨sz, sh, c, w, shp⟩)
+      else (cur', .ok ⟨sz, sh, c, w, .box⟩)
+
+end
+
+section
+variable {K : Type} [Add K] [Sub K] [Mul K] [Div K] [Zero K] [One K] [IntCast K]
+  [LT K] [LE K] [DecidableLT K] [DecidableLE K]
+
+/-- `Dislocation.monopole(**kwargs)` as a whole: argument handling, then the systems (`assert` = the
+    `radius > 0` assertion of `Cylinder`).  Returns the object's stored shift afterwards as well. -/
+def monopoleCall (fl : K → Int) (ceil : K → Int) (pad : K) (sqrt : K → K) (u : V3 K → V3 K) (o : Orient) (rcell : Sys K)
+    (lens : V3 K) (ucellA : K) (nsym : Nat) (shifts : List (V3 K)) (cur : V3 K) (a : CallArgs K) :
+    V3 K × Except String (Sys K × Sys K) :=
+  match callHead ceil true o.line rcell.box.vects lens ucellA shifts cur a with
+  | (cur', .error e) => (cur', .error e)
+  | (cur', .ok h) =>
+    match monopole fl pad sqrt u o rcell h.sizes h.shift h.center h.shape h.width nsym with
+    | none => (cur', .error "assert")
+    | some r => (cur', .ok r)
+
+end
+
 /-! ### disregistry (atomman/defect/disregistry.py) -/
 section
 variable {K : Type} [Add K] [Sub K] [Mul K] [Div K] [Neg K] [Zero K] [One K] [IntCast K]
